@@ -221,6 +221,69 @@ def reused_directory_leg(rep, wd, base_src, base_out):
     return 1 if n else 0
 
 
+DOC_SRC = """#[diplomat::bridge]
+mod ffi {
+    #[diplomat::opaque]
+    #[diplomat::rust_link(icu::locale::Locale, Struct)]
+    pub struct Loc(u8);
+    impl Loc {
+        #[diplomat::rust_link(icu_provider::DataProvider::load, FnInTrait)]
+        pub fn load(&self) -> u8 { 0 }
+        #[diplomat::rust_link(icu_provider_adapters::fork::ForkByKeyProvider, Struct)]
+        #[diplomat::rust_link(icu_provider_adapters::fork::ForkByKeyProvider::new, FnInStruct, compact)]
+        pub fn fork(&self) -> u8 { 0 }
+        #[diplomat::rust_link(other_crate::thing, Fn)]
+        pub fn other(&self) -> u8 { 0 }
+    }
+    #[diplomat::rust_link(icu_provider_adapters::either::EitherProvider, Enum)]
+    pub enum Either {
+        #[diplomat::rust_link(icu_provider_adapters::either::EitherProvider::A, EnumVariant)]
+        A,
+        B,
+    }
+}
+"""
+
+
+def command_line_leg(rep, wd, tier):
+    """Rerun with a non-default command line: documentation base URLs (`-u <crate>:<url>`, several of them, some for crates whose
+    name is a prefix of another linked crate's name).  The same command line in fresh processes gives byte-identical files, and so
+    does the same set of entries given in another order."""
+    p = os.path.join(wd, "doclinks.rs")
+    open(p, "w").write(DOC_SRC)
+    exe = lib.build_tool()
+    sets = [["-u", "icu:https://family.example/", "-u", "icu_provider:https://provider.example/"],
+            ["-u", "icu_provider:https://provider.example/", "-u", "icu:https://family.example/", "-u", "icu_provider_adapters_x:https://x.example/",
+             "-u", "*:https://default.example/"]]
+    n = 0
+    for b in lib.BACKENDS:
+        for si, us in enumerate(sets):
+            ref = None
+            runs = (8 if tier == "quick" else 24) if si == 0 else 3
+            # the last run of each set gives the entries in the opposite order
+            for i in range(runs + 1):
+                opts = us if i < runs else [x for pair in reversed([us[j:j + 2] for j in range(0, len(us), 2)]) for x in pair]
+                d = os.path.join(wd, "out_docs_%s" % b)
+                shutil.rmtree(d, ignore_errors=True)
+                r = lib.sh([exe] + lib.tool_args(b, p, d) + opts, timeout=120)
+                if r.returncode != 0:
+                    rep.violation({"action": "Rerun", "backend": b, "what": "tool failed with documentation base URLs"}, {"stderr": r.stderr[-400:], "options": opts})
+                    break
+                tree = observe.read_tree(d)
+                n += 1
+                if ref is None:
+                    ref = tree
+                elif tree != ref:
+                    diff = sorted(f for f in set(tree) | set(ref) if tree.get(f) != ref.get(f))
+                    rep.violation({"action": "Rerun", "backend": b, "what": "output changed",
+                                   "detail": "documentation base URLs on the command line" + ("" if i < runs else ", entries in another order")},
+                                  {"options": opts, "files": diff[:6], "run": i})
+                    break
+            rep.nontriv("%s|Rerun|docs base urls %d" % (b, si))
+    rep.extra["command_line_runs"] = n
+    return 2
+
+
 def run(rep, tier):
     wd = rep.wd
     rep.rule = ("histories = TLC-simulated edit sequences (rerun, swap adjacent items/modules, insert/remove an unrelated type, add/remove "
@@ -303,6 +366,7 @@ def run(rep, tier):
             mods, extras, cur_src, cur = mods2, extras2, src2, out2
     nsteps += same_named_leg(rep, wd, base_src, base_out)
     nsteps += reused_directory_leg(rep, wd, base_src, base_out)
+    nsteps += command_line_leg(rep, wd, tier)
     rep.evaluations += nsteps * len(lib.BACKENDS)
     rep.traces += len(behs)
     rep.sample({"history": behs[0], "final_source": cur_src[:1500]})
